@@ -52,6 +52,10 @@ THEOREMS = [
     "Opacus.C13.rnn_cell_equation",
     "Opacus.C13.lstm_cell_equations",
     "Opacus.C13.gru_cell_equation",
+    # the tie to the source: Generated/RnnCellEqs.lean is re-translated from layers/dp_rnn.py on every run
+    "Opacus.C13.generated_cells_eq_model",
+    "Opacus.C13.generated_lstm_is_model_cell",
+    "Opacus.C13.generated_gru_rnn_is_model_cell",
 ]
 RULE = (
     "case = (kind in {tanh,relu,gru,lstm}, I, H, num_layers 1-3, bidirectional, bias, batch_first, padded | packed sorted | packed unsorted, "
@@ -60,6 +64,7 @@ RULE = (
     "count as 'ragged' when the lengths differ; distinct by the whole configuration tuple including the lengths"
 )
 TRUSTED = [
+    "the translator vharness/props/c13_trans.py (symbolic per-coordinate evaluation of DPRNNCell / DPGRUCell / DPLSTMCell.forward: which chunk of torch.split feeds which gate, the activations, how state and gates are combined; row slicing for packed batches is dropped, the default zero state skipped; subset in its docstring, anything else is reported as a broken tie) is trusted to render the cell equations faithfully; the time / layer / direction loops are tied by the behavioural correspondence",
     "torch.nn.RNN/GRU/LSTM implement their documented per-sequence recurrence (checked here against the Lean spec on every generated case, not proved)",
     "gradient equality follows from function equality only through trusted autograd; gradients are compared on the real code by the search, not modelled",
     "tanh / sigmoid are opaque in the theorems; the float channel uses Lean's Float.tanh / Float.exp (libm) against torch's kernels to 1e-9",
@@ -782,7 +787,14 @@ def grid_cases(rng, kinds):
     return out
 
 
+def regenerate(ctx):
+    from .. import regen
+    from . import c13_trans as T
+    regen.regenerate(ctx, T, "Opacus.Generated.RnnCells", "layers/dp_rnn.py cell forward()")
+
+
 def run(ctx):
+    regenerate(ctx)
     torch.set_num_threads(2)
     # which behaviour does this tree implement for the packed path's h_last buffer? (Lean witness:
     # packed_state_dtype_counterexample; replayed on the real code by dtype_oracle)
